@@ -61,10 +61,10 @@ func crashSummary(stderr string) string {
 		}
 		if msg != "" && frame == "" && strings.HasPrefix(l, "github.com/MichaelMure/git-bug/") && !strings.Contains(l, "verifshim") {
 			f := strings.TrimPrefix(l, "github.com/MichaelMure/git-bug/")
-			if k := strings.Index(f, "("); k > 0 {
+			if k := strings.LastIndex(f, "("); k > 0 { // the argument list
 				f = f[:k]
 			}
-			f = regexp.MustCompile(`\[\.\.\.\]`).ReplaceAllString(f, "")
+			f = strings.ReplaceAll(f, "[...]", "")
 			frame = f
 		}
 	}
@@ -113,7 +113,7 @@ func Evaluate(c Case, res subproc.Result, phase string) (out []Finding, obs Obs,
 	case "E", "C":
 		if U {
 			if len(obs.Mutant) == 0 {
-				add("accepted", fmt.Sprintf("%s not reported at all although %s", s, why), "MergeAll reported nothing for the entity")
+				add("accepted", fmt.Sprintf("%s not reported at all although %s", s, why), fmt.Sprintf("MergeAll reported nothing for the entity (statuses %v, note %q)", obs.Statuses, obs.ReadAll))
 			}
 			for _, mr := range obs.Mutant {
 				if mr.Status != "invalid" {
